@@ -94,6 +94,33 @@ def run(ctx):
         ctx.floor("W2", f"field comparisons decided for {t}", d, fl)
     k = w3(ctx, ["fiin::FileInfo"])
     ctx.floor("W3", "count divisors in fiin", k, 1)
+    # the write side of the two computed header words: the header size word is the constant 1024 and the table size is
+    # `entries.len() * <serialised entry size>` — the reader divides by the same number (W3 above)
+    from .. import wire as _W
+
+    wm_ = getattr(ctx, "_wm", None)
+    if wm_ is None:
+        from ..wrules import model as _model
+
+        wm_ = _model(ctx)
+    fi_ = wm_.items.by_path.get("fiin::FileInfo")
+    en_ = wm_.items.by_path.get("fiin::FIINEntry")
+    if not fi_ or not en_:
+        ctx.fail_closed("W3", "fiin::FileInfo / FIINEntry not found")
+    else:
+        esz = wm_.item_size(en_)
+        calcs = {f_["name"]: [d_.text.replace(" ", "") for d_ in _W.directives(f_["attrs"]) if d_.name == "calc"] for f_ in fi_["fields"]}
+        hdr = [v for k_, v in calcs.items() if v and "entries" not in v[0]]
+        ctx.ob("W3", "header-size-word", hdr == [["1024"]], f"computed header words written as {hdr}; the file-info header announces a size of 1024", fi_["file"], fi_["line"])
+        tbl = [v[0] for k_, v in calcs.items() if v and "entries" in v[0]]
+        ok_t = len(tbl) == 1 and re.fullmatch(r"\(?\(?entries\.len\(\)\*%d\)?(asi32)?\)?" % (esz or -1), tbl[0]) is not None or (len(tbl) == 1 and re.fullmatch(r"\(?\(?%d\*entries\.len\(\)\)?(asi32)?\)?" % (esz or -1), tbl[0]) is not None)
+        ctx.ob("W3", "table-size-written", bool(ok_t), f"entries_size is written as {tbl}; must be entries.len() * {esz} (the serialised size of one entry, by which the reader divides)", fi_["file"], fi_["line"])
+    wbf = prog.body("fiin::FileInfo::write_to_buffer")
+    if wbf:
+        wcalls = [t_ for _bi, t_ in wbf.calls() if "BinWrite" in (t_.get("res") or t_["f"].get("k", {}).get("fn", "")) or (t_.get("res") or "").endswith("FileInfo as binrw::BinWrite>::write_options")]
+        ctx.ob("W2", "write_to_buffer|writes-self", bool(wcalls), f"FileInfo::write_to_buffer serialises the table through {len(wcalls)} BinWrite call(s) before returning the buffer", wbf.file, wbf.line)
+    else:
+        ctx.fail_closed("W2", "fiin::FileInfo::write_to_buffer not found")
     # the recorded digests are produced by src/sha1.rs: constants, round dispatch, padding layout, digest byte order
     from .c12 import sha1_rules
 
